@@ -515,7 +515,8 @@ struct StringOnly<'a> {
     sink: &'a mut SimFmtSink,
     strings: &'a mut u32,
     /// bit 0: a binary format (`is_human_readable() == false`); bit 1: `collect_str` as serde's default
-    /// does it (`to_string()` first, then `serialize_str`) instead of streaming `Display` into the sink.
+    /// does it (`to_string()` first, then `serialize_str`) instead of streaming `Display` into the sink;
+    /// bit 2: `collect_str` formats the value twice - a measuring pass into a counter, then the real one.
     mode: usize,
 }
 
@@ -554,6 +555,18 @@ impl<'a> serde::Serializer for StringOnly<'a> {
             return self.serialize_str(&value.to_string());
         }
         *self.strings += 1;
+        if self.mode & 4 != 0 {
+            struct Counter(usize);
+            impl fmt::Write for Counter {
+                fn write_str(&mut self, s: &str) -> fmt::Result {
+                    self.0 += s.len();
+                    Ok(())
+                }
+            }
+            let mut measure = Counter(0);
+            write!(measure, "{}", value).map_err(|_| SerErr("measuring pass failed".to_owned()))?;
+            self.sink.data.reserve(measure.0);
+        }
         write!(self.sink, "{}", value).map_err(|_| SerErr("sink failed".to_owned()))
     }
 
@@ -780,7 +793,9 @@ where
         match spec {
             DocSpec::Parsed { input } => match parse(input)? {
                 Some(p) => {
-                    let canon = guarded(|| p.to_string()).map_err(|e| violation!("C16.panic_in_display", "to_string() of the PURL parsed from {input:?} panicked: {e}"))?;
+                    // The canonical string is taken from a clone: the value the producer gets has never
+                    // been formatted before, so its first formatting is the one into the faulty sink.
+                    let canon = guarded(|| p.clone().to_string()).map_err(|e| violation!("C16.panic_in_display", "to_string() of the PURL parsed from {input:?} panicked: {e}"))?;
                     let (lit, map) = json_minimal(&canon);
                     let (json, lit_start, lit_len) = embed(lit.as_bytes());
                     let parsed = parse(&canon)?;
@@ -809,7 +824,7 @@ where
                 }
                 let built = guarded(move || builder.build().ok()).map_err(|p| violation!("C16.panic_in_build", "building {b:?} panicked: {p}"))?;
                 let Some(p) = built else { continue };
-                let canon = guarded(|| p.to_string()).map_err(|e| violation!("C16.panic_in_display", "to_string() of the PURL built from {b:?} panicked: {e}"))?;
+                let canon = guarded(|| p.clone().to_string()).map_err(|e| violation!("C16.panic_in_display", "to_string() of the PURL built from {b:?} panicked: {e}"))?;
                 let (lit, map) = json_minimal(&canon);
                 let (json, lit_start, lit_len) = embed(lit.as_bytes());
                 let parsed = parse(&canon)?;
@@ -866,6 +881,15 @@ where
             Pos::Boundary { doc } if doc % items.len() == i => Some((it.json.len(), None)),
             _ => None,
         }
+    };
+
+    let (compact_prefix, compact_suffix) = template::<K>(false);
+    let embed_compact = |i: usize| -> Vec<u8> {
+        let it = &items[i];
+        let mut doc = compact_prefix.clone();
+        doc.extend_from_slice(&it.json[it.lit_start..it.lit_start + it.lit_len]);
+        doc.extend_from_slice(&compact_suffix);
+        doc
     };
 
     let mut nontrivial = false;
@@ -1022,6 +1046,31 @@ where
             }
         }
         writer.push_raw(sc.sep.as_bytes());
+
+        // Whatever happened to that attempt, the same value serialised again into a sink that cannot
+        // fail is the canonical string (nothing of a broken-off write may stick to the value).
+        let again = guarded(|| serde_json::to_vec(&WS::<_, K>(p)).ok())
+            .map_err(|e| violation!("C16.panic_in_serialize", "serialising {canon:?} a second time panicked: {e}"))?;
+        let expected_compact = if pretty { embed_compact(i) } else { expected.clone() };
+        if again.as_deref() != Some(expected_compact.as_slice()) {
+            return Err(violation!(
+                "C16.second_serialisation_differs",
+                "after a first attempt through {:?} ({}), serialising the same value again into a Vec gives {:?}, expected {:?}",
+                sc.ser,
+                if ok { "which succeeded" } else { "which failed" },
+                again.map(|b| String::from_utf8_lossy(&b).into_owned()),
+                String::from_utf8_lossy(&expected_compact)
+            ));
+        }
+        let shown = guarded(|| p.to_string()).map_err(|e| violation!("C16.panic_in_display", "to_string() after serialising {canon:?} panicked: {e}"))?;
+        if shown != canon {
+            return Err(violation!(
+                "C16.second_serialisation_differs",
+                "after a first attempt through {:?} ({}), to_string() of the same value gives {shown:?}, it was {canon:?} before",
+                sc.ser,
+                if ok { "which succeeded" } else { "which failed" }
+            ));
+        }
     }
     if any_values {
         stats.add("io.write_calls", writer.stats.calls);
@@ -1363,7 +1412,7 @@ impl Sim for C16 {
             9 => DeKind::Value,
             _ => DeKind::SerdeStr(rng.below(4) as u8),
         };
-        let chunk = |rng: &mut Rng| *rng.pick(&[0usize, 0, 0, 1, 2, 3, 7]);
+        let chunk = |rng: &mut Rng| *rng.pick(&[0usize, 0, 0, 1, 2, 3, 7, 4, 5]);
         let n_faults = |rng: &mut Rng| match rng.below(20) {
             0..=5 => 0,
             6..=14 => 1,
